@@ -1,0 +1,29 @@
+//go:build verif
+// +build verif
+
+// Contracts for package aac, read by /verif's govc (contract-based deductive verification).
+// This file contains comments only; it is compiled only under the build tag "verif" and adds no code.
+
+package aac
+
+// ---- ADTS fixed/variable header, ISO/IEC 13818-7 6.2 (7 bytes, no CRC), written from the standard ---------------
+//@ spec func adtsFrameLength(h ADTSHeader) int = int(h[3]&3)<<11 | int(h[4])<<3 | int(h[5]>>5)
+
+//@ func NewADTSHeader(profile byte, sampleRateIdx byte, channelConfig byte, payloadSize int) (h ADTSHeader)
+//@   requires 0 <= payloadSize && payloadSize <= 8184
+//@   modifies
+//@   ensures h[0] == 0xff && h[1] == 0xf1
+//@   ensures h[2]>>6 == profile&3 && (h[2]>>2)&0xf == sampleRateIdx&0xf && h[2]&2 == 0
+//@   ensures (h[2]&1)<<2 | h[3]>>6 == channelConfig&7 && h[3]&0x3c == 0
+//@   ensures adtsFrameLength(h) == payloadSize + 7
+//@   ensures h[5]&0x1f == 0x1f && h[6] == 0xfc
+
+//@ func (h ADTSHeader) FrameLength() (n int)
+//@   modifies
+//@   ensures n == adtsFrameLength(h)
+
+// AudioSpecificConfig, ISO/IEC 14496-3 1.6.2.1: 5 bits object type, 4 bits frequency index, 4 bits channel configuration
+//@ func Encode2BytesASC(objType byte, samplingIdx byte, channelConfig byte) (config []byte)
+//@   modifies
+//@   ensures len(config) == 2
+//@   ensures config[0]>>3 == objType&0x1f && (config[0]&7)<<1 | config[1]>>7 == samplingIdx&0xf && (config[1]>>3)&0xf == channelConfig&0xf && config[1]&7 == 0
